@@ -270,6 +270,10 @@ func (g *gen) typeInv(term string, t types.Type, st *State) []string {
 				g.inTypeInv = false
 			}
 		}
+	case "Str":
+		if g.c.strMode {
+			out = append(out, app("<=", app("str.len", term), "281474976710656"))
+		}
 	case "Slice":
 		out = append(out, app("validslice", term))
 		if st != nil {
@@ -964,6 +968,20 @@ func (e *env) trCall(x *ECall) (Val, XT, error) {
 		g.c.declareFun("bsub", []string{"Bytes", "Int", "Int"}, "Bytes")
 		m := g.svGet(e.st, "$bytes", "(Array Int Bytes)")
 		return app("bsub", app("select", m, app("sbase", v)), app("soff", v), nv), XT{S: "Bytes"}, nil
+	case "strContains":
+		a, _, err := argv(0)
+		if err != nil {
+			return nil, XT{}, err
+		}
+		b, _, err := argv(1)
+		if err != nil {
+			return nil, XT{}, err
+		}
+		if g.c.strMode {
+			return app("str.contains", a, b), xtBool, nil
+		}
+		g.c.declareFun("u_contains", []string{"Str", "Str"}, "Bool")
+		return app("u_contains", a, b), xtBool, nil
 	case "contents":
 		v, xt, err := argv(0)
 		if err != nil {
